@@ -58,6 +58,14 @@ def corpus():
                    + [dict(op='remove_method', rule='/item/new', methods=['GET']), dict(op='remove_via', rule='/item/<id>/x', verb='GET')]
                    + _probes(['/item/new', '/item/5', '/item/5/x', '/item/new/x'])
                    + [dict(op='resolve_route', path='/item/new'), dict(op='resolve_route', path='/item/5/x')]))
+    # two rules behind one filtered wildcard, continuing with different characters; one removed again: the wildcard node
+    # (no route of its own) keeps its filter and its other child
+    cs.append(dict(cmds=_adds(['/u/<id:int>/edit', '/u/<id:int>.json']) + [dict(op='remove', rule='/u/<id:int>.json')]
+                   + _probes(['/u/5', '/u/5.json', '/u/007', '/u/5/edit', '/u/x/edit'])))
+    cs.append(dict(cmds=_adds(['/u/<id:float>.json', '/u/<id:float>/edit', '/u/<id:float>-x']) + [dict(op='remove', rule='/u/<id:float>/edit'),
+                                                                                             dict(op='remove', rule='/u/<id:float>-x')]
+                   + _probes(['/u/5', '/u/5.json', '/u/2.5.json', '/u/5/edit', '/u/5-x', '/u/x.json'])
+                   + _adds(['/u/<id:float>/edit'], h0=7) + _probes(['/u/5/edit', '/u/5.json'])))
     # conflicting filters: the second add is rejected
     cs.append(dict(cmds=_adds(['/a/<x:int>', '/a/<x>', '/a/<y:int>/z', '/a/<x:re:[a-c]+>'])
                    + _probes(['/a/12', '/a/zz', '/a/12/z', '/a/ab', '/a/١٢', '/a/-3/z', '/a/1.5'])))
@@ -131,9 +139,44 @@ def _path_family(rng):
     return rule, segs, paths
 
 
+def _prefix_family(rng):
+    """2..3 rules sharing /pre/<wildcard> and going on with literal text that starts with different characters
+    ('/edit', '.json', '-x', ...): the wildcard node has no route of its own and several literal children. One rule is
+    removed again (pruning + compaction at the wildcard node), sometimes registered anew; then every rule is probed."""
+    pre = rng.choice(['u', 'w', 'doc'])
+    kind = rng.choice(['int', 'int', 'float', 're', 'plain'])
+    conts = rng.sample([[[('L', '.json')]], [[], [('L', 'edit')]], [[('L', '-x')]], [[('L', 'x')]], [[], [('L', 'e')], [('W', 'y', 'plain')]],
+                        [[('L', '.j')], [('L', 'k')]]], rng.randrange(2, 4))
+    rules = []
+    for ct in conts:
+        segs = [[('L', pre)], [('W', 'id', kind)] + list(ct[0])] + [list(s) for s in ct[1:]]
+        rules.append((L.render_rule(rng, segs), segs))
+    if rng.random() < 0.2:
+        segs = [[('L', pre)], [('W', 'id', kind)]]
+        rules.append((L.render_rule(rng, segs), segs))          # the wildcard node holds a route itself
+    order = list(rules)
+    rng.shuffle(order)
+    cmds = [dict(op='add', rule=r, methods=['GET'], h=i) for i, (r, _s) in enumerate(order)]
+    for _k in range(rng.randrange(1, 3)):
+        victim = rng.choice(rules)
+        cmds.append(dict(op='remove', rule=victim[0]))
+        if rng.random() < 0.3:
+            cmds.append(dict(op='add', rule=victim[0], methods=['GET'], h=20 + _k))
+    paths = []
+    for _r, sg in rules:
+        p = L.instantiate(rng, sg)
+        paths += [p, L.mutate_path(rng, p)]
+    v = rng.choice(['5', '007', '2.5', 'ab'])
+    paths += ['/%s/%s' % (pre, v), '/%s/%s.json' % (pre, v), '/%s/%s/edit' % (pre, v), '/%s/%s-x' % (pre, v)]
+    return cmds + _probes(paths)
+
+
 def gen(rng, n):
     n_mal = n // 12
     for _ in range(n - n_mal):
+        if rng.random() < 0.07:
+            yield dict(cmds=_prefix_family(rng))
+            continue
         if rng.random() < 0.08:
             rule, segs, paths = _path_family(rng)
             other = L.gen_rule(rng)
@@ -453,6 +496,8 @@ def _oracle(case, obs):
                                             methods={}, rule=c['rule'], pattern=pattern)
             for m in ms:
                 ent['methods'][m] = (c['h'], params)
+        elif c['op'] == 'remove':
+            table.pop(Route.parse_rule(c['rule'])[0], None)        # the route held under exactly this pattern, if any
         elif c['op'] in ('remove_method', 'remove_via'):
             pattern, _p, filters, _a, _b = Route.parse_rule(c['rule'])
             fl = L.flat_pattern(pattern, filters)
